@@ -7,21 +7,10 @@
    sequence of names below the root (<<>> = the root itself).  Resolution is lexical:
    a relative path is taken from the working directory, "." and "" are skipped, ".."
    goes one level up and STAYS at the root when already there.                          *)
-EXTENDS Integers, Sequences, FiniteSets, TLC
+EXTENDS Integers, Sequences, FiniteSets, TLC, FtpPath
 
 CONSTANTS Names,       \* directory names that exist (at every level down to Depth)
           Depth
-
-RECURSIVE Walk(_, _)
-Walk(at, comps) ==
-  IF comps = <<>> THEN at
-  ELSE LET c == Head(comps) IN
-       Walk(CASE c \in {"", "."} -> at
-              [] c = ".." -> IF at = <<>> THEN <<>> ELSE SubSeq(at, 1, Len(at) - 1)
-              [] OTHER -> Append(at, c),
-            Tail(comps))
-
-Resolve(cwd, p) == Walk(IF p.abs THEN <<>> ELSE cwd, p.comps)
 
 \* the fixture tree: every sequence of Names of length <= Depth is a directory
 IsDir(loc) == Len(loc) <= Depth /\ \A i \in 1..Len(loc) : loc[i] \in Names
@@ -46,7 +35,6 @@ Touch(op, p) ==
 
 \* ---- properties ----------------------------------------------------------------
 \* every location is a sequence of plain names below the root: no "..", ".", "" survives
-Plain(loc) == \A i \in 1..Len(loc) : loc[i] \notin {"..", ".", ""}
 Contained == \A t \in touched : Plain(t)
 CwdRooted == Plain(cwd) /\ IsDir(cwd)
 =============================================================================
